@@ -246,11 +246,19 @@ class Gen:
         return r.choice(['zz', 'ab', 'aa', '-', ' ', '--', 'b'])
 
     SETTING_ALPHABET = ['0', '1', '2', '3', '4', '5', '8', '9', ';', ';', ';', ':', '<', '=', '>', '?', '@', 'm', '~', 'A', '`', '[',
+                        '_', '_', 'e', 'x', '^', '{', '|', '}', '\\', ']',
                         ' ', '/', '\x7f', '38', '48', '58', '255', '256', '38;5', '38;2', '58;5;9', '48;2;1;2', '0', '00', '01', '22']
+
+    ALL_PRINTABLE = [chr(c) for c in range(0x20, 0x7F)] + ['\x7f', '\u00e9', '\u0663', '\t']
 
     def setting_text(self):
         r = self.rng
         n = r.choice([1, 1, 2, 2, 3, 4, 5, 6])
+        if r.random() < 0.25:
+            # a well-formed group with one byte of the whole printable range spliced in
+            base = r.choice(['1', '31', '38;5;10', '48;2;1;2;3', '58;5;9', '22', '4;34', '0'])
+            k = r.randrange(len(base) + 1)
+            return base[:k] + r.choice(self.ALL_PRINTABLE) + base[k:]
         return ''.join(r.choice(self.SETTING_ALPHABET) for _ in range(n))
 
     def ip(self):
